@@ -280,14 +280,22 @@ impl Property for C01 {
                 obs.failures.push(f);
                 return;
             }
-            (Built::Refused(_), Built::Refused(_)) => {
-                obs.rejected_config = true;
-                obs.label("refused");
+            (Built::Refused(m), _) | (_, Built::Refused(m)) if !m.contains("Can't merge Ohkamis") => {
+                // the generator keeps (route, method) pairs apart: the only refusals it provokes are of mounts that meet
+                // on a node ("Can't merge Ohkamis"). Any other refusal turns away a configuration that is an application
+                obs.fail(format!("valid-configuration-refused:{}", crate::core::panic::stem(&m).chars().take(50).collect::<String>()), format!("the application was refused at build time: {m}"));
                 return;
             }
-            _ => {
+            (Built::Refused(m), Built::Refused(_)) => {
+                obs.rejected_config = true;
+                obs.label("refused");
+                obs.label_dyn(&format!("refusal:{}", crate::core::panic::stem(&m).chars().take(60).collect::<String>()));
+                return;
+            }
+            (Built::Refused(m), _) | (_, Built::Refused(m)) => {
                 obs.rejected_config = true;
                 obs.label("refused-in-one-order-only");
+                obs.label_dyn(&format!("refusal-one-order:{}", crate::core::panic::stem(&m).chars().take(60).collect::<String>()));
                 return;
             }
         };
